@@ -23,6 +23,7 @@ Definition T_BODY : N := 2.   (* payload blocks *)
 Definition T_TAIL : N := 3.   (* the v2 tail written by Close *)
 Definition T_EMPTY : N := 4.  (* GetEmptyLRUSession, the only payload of a shrunk file *)
 Definition T_HASH : N := 5.   (* md5 prefix of a flag file *)
+Definition T_DUMMY : N := 6.  (* the only payload (sessions) of an on-disk state machine's own snapshot *)
 
 Definition valid_snap (d : data) : bool :=
   match d with
@@ -35,6 +36,16 @@ Definition is_shrunk (d : data) : bool :=
   | [h; e; t] => (h =? T_HDR) && (e =? T_EMPTY) && (t =? T_TAIL)
   | _ => false
   end.
+
+(* the metadata-only ("dummy") snapshot an on-disk state machine takes of itself *)
+Definition is_dummy (d : data) : bool :=
+  match d with
+  | [h; e; t] => (h =? T_HDR) && (e =? T_DUMMY) && (t =? T_TAIL)
+  | _ => false
+  end.
+
+(* a snapshot file that does not carry the state machine's state *)
+Definition is_partial (d : data) : bool := is_shrunk d || is_dummy d.
 
 Definition flag_data (i : N) : data := [T_HASH; i].
 
@@ -101,8 +112,9 @@ Definition writer_ops (d : dname) (f : fname) (body : data) : list op :=
    OFs (FSyncFile d f); OFs (FSyncDir d)].
 
 (* snapshotter.Save *)
-Definition save_ops (i n : N) : list op :=
-  mktemp_ops (DGen i) ++ writer_ops (DGen i) (FSnap i) (repeat T_BODY (N.to_nat n)).
+Definition save_ops_body (i : N) (body : data) : list op :=
+  mktemp_ops (DGen i) ++ writer_ops (DGen i) (FSnap i) body.
+Definition save_ops (i n : N) : list op := save_ops_body i (repeat T_BODY (N.to_nat n)).
 
 (* SSEnv.FinalizeSnapshot up to the finalDirExists check *)
 Definition finalize_pre (tmp : dname) (i : N) : list op := flagfile_ops tmp FFlag i.
@@ -134,6 +146,25 @@ Definition recv_data_ops (i n : N) : list op :=
     [OFs (FCreate d f); OFs (FWrite d f [T_HDR]); OFs (FSyncDir d);
      OFs (FWrite d f (repeat T_BODY (N.to_nat (n - 2)))); OFs (FWrite d f [T_TAIL]);
      OFs (FSyncFile d f)].
+
+(* one file of a received image, nch chunks (transport.Chunk.save): the chunk that
+   creates the file syncs the directory when the file is closed; the file is
+   fsynced at its last chunk when [sync] *)
+Definition recv_file_fs (d : dname) (f : fname) (nch : N) (sync : bool) : list fsop :=
+  if nch <=? 1 then
+    [FCreate d f; FWrite d f [T_HDR; T_TAIL]] ++ (if sync then [FSyncFile d f] else []) ++ [FSyncDir d]
+  else
+    [FCreate d f; FWrite d f [T_HDR]; FSyncDir d;
+     FWrite d f (repeat T_BODY (N.to_nat (nch - 2))); FWrite d f [T_TAIL]] ++
+    (if sync then [FSyncFile d f] else []).
+
+(* an image with an external file (ISnapshotFileCollection): the snapshot file
+   in n chunks first, then external-file-1 in m chunks.  Chunk.save fsyncs at
+   the last chunk of the snapshot and, per Gen.GenC16, at the last chunk of
+   every file *)
+Definition recvx_fs (i n m : N) : list fsop :=
+  recv_file_fs (DRecv i) (FSnap i) n chunk_save_syncs_each_file ++
+  recv_file_fs (DRecv i) (FOther 1) m true.
 
 Definition shrink_ops (i : N) : list op :=
   let d := DFinal i in
@@ -209,6 +240,7 @@ Inductive cmd :=
 | CSave (i n : N)      (* snapshotter.Save of index i, n payload blocks *)
 | CCommit (i : N)      (* snapshotter.Commit + node.doSave's handling of errSnapshotOutOfDate *)
 | CRecv (i n : N)      (* an n-chunk snapshot stream for index i arrives and is finalized *)
+| CRecvX (i n m : N)   (* the same for an image with one external file of m chunks *)
 | CApply (i : N)       (* the engine persists the update carrying received snapshot i *)
 | CShrink (i : N)
 | CCompact (i : N)
@@ -241,6 +273,9 @@ Definition do_cmd (ord : list dname -> list dname) (s : state) (c : cmd) : state
   | CRecv i n =>
     if i =? 0 then (s, [], Skipped) else
     seq (exec s (mktemp_ops (DRecv i) ++ recv_data_ops i n)) (finalize (DRecv i) i [])
+  | CRecvX i n m =>
+    if i =? 0 then (s, [], Skipped) else
+    seq (exec s (mktemp_ops (DRecv i) ++ map OFs (recvx_fs i n m))) (finalize (DRecv i) i [])
   | CApply i =>
     if has_file (DFinal i) FFlag (st_fs s) then fin (exec s (apply_ops i)) else (s, [], Skipped)
   | CShrink i =>
@@ -271,6 +306,13 @@ Definition files_goodb (i : N) (l : list fobj) : bool :=
   existsb (fun f => f_is (f_dn f) (FSnap i)) l &&
   existsb (fun f => f_is (f_vn f) (FSnap i)) l &&
   forallb (fun f => implb (f_is (f_vn f) (FSnap i) || f_is (f_dn f) (FSnap i)) (valid_snap (f_dd f))) l.
+
+(* every external file of a final directory has its full length (both views) *)
+Definition ext_fullb (l : list fobj) : bool :=
+  forallb (fun f => match f_vn f, f_dn f with
+                    | Some (FOther _), _ | _, Some (FOther _) => valid_snap (f_dd f)
+                    | _, _ => true
+                    end) l.
 
 Definition cleanb (s : state) : bool :=
   forallb (fun o =>
@@ -327,7 +369,7 @@ Definition recorded_file (s : dstate) : option data :=
 Definition cmd_recover (s : dstate) (i : N) : dstate * list dop * outcome :=
   if negb (i =? 0) && (st_rec (ds_st s) =? i) && (ds_smv s <? i) then
     match recorded_file s with
-    | Some d => if valid_snap d && negb (is_shrunk d) then recover_prog s i true else (s, [], Skipped)
+    | Some d => if valid_snap d && negb (is_partial d) then recover_prog s i true else (s, [], Skipped)
     | None => (s, [], Skipped)
     end
   else (s, [], Skipped).
@@ -358,6 +400,9 @@ Definition init_recover (s : dstate) : dstate * list dop * outcome :=
   | None => (s, [], Failed)
   | Some d =>
     if negb (valid_snap d) then (s, [], Panicked)
+    else if is_dummy d then
+      (* Shrink does nothing for a dummy snapshot: only Sync *)
+      if r <=? ds_smd s then (drun s [DSmSync], [DSmSync], Done) else (s, [], Panicked)
     else if is_shrunk d then
       if r <=? ds_smd s then recover_prog s r false else (s, [], Panicked)
     else recover_prog s r (ds_smd s <? r)
@@ -368,9 +413,37 @@ Definition restart_okb (s : dstate) : bool :=
   let r := st_rec (ds_st s) in
   (r =? 0) ||
   match recorded_file s with
-  | Some d => valid_snap d && (negb (is_shrunk d) || (r <=? ds_smd s))
+  | Some d => valid_snap d && (negb (is_partial d) || (r <=? ds_smd s))
   | None => false
   end.
+
+(* committed entries up to index k are applied (volatile until Sync) *)
+Definition cmd_entries (s : dstate) (k : N) : dstate :=
+  mkDS (ds_st s) (N.max (ds_smv s) k) (ds_smd s).
+
+(* rsm.StateMachine.Save for an on-disk state machine: every snapshot goes through
+   concurrentSave, which calls sync() before the snapshot is written (Gen.GenC16) *)
+Definition ondisk_save_syncs : bool :=
+  save_concurrent_cond_plain && (concurrent_save_pos_sync <? concurrent_save_pos_dosave).
+
+(* node.doSave on an on-disk replica whose applied index is ap (all of it applied to
+   the state machine): Sync ; Save (sessions only, OnDiskIndex = ap) ; Commit ;
+   LogReader.CreateSnapshot, which releases the snapshot lr it held (Compact) *)
+Definition cmd_save_ondisk (s : dstate) (lr ap : N) : dstate * list dop * outcome :=
+  if negb (ap =? 0) && (st_rec (ds_st s) <? ap) && (ap =? ds_smv s) then
+    let st0 := ds_st s in
+    let '(st1, tr1, ok1) := exec st0 (save_ops_body ap [T_DUMMY]) in
+    let '(st2, tr2, oc2) :=
+      if ok1 then do_cmd (fun l => l) st1 (CCommit ap) else (st1, [], Failed) in
+    let '(_, tr3, _) :=
+      match oc2 with
+      | Done => if negb (lr =? 0) && (lr <? ap) then do_cmd (fun l => l) st2 (CCompact lr)
+                else (st2, [], Done)
+      | _ => (st2, [], Done)
+      end in
+    let ops := (if ondisk_save_syncs then [DSmSync] else []) ++ map DBase (tr1 ++ tr2 ++ tr3) in
+    (drun s ops, ops, oc2)
+  else (s, [], Skipped).
 
 (* only so that the extracted code contains the type of Z (ocaml/common/util.ml) *)
 Definition c16_unused_z (x : N) : BinNums.Z := BinInt.Z.of_N x.
